@@ -1,17 +1,35 @@
 package c20
 
-// Boot Guard 1.0 and CBnT key manifests / boot policy manifests: ReadFrom on hostile bytes
-// (pkg/intel/metadata/{bg,cbnt}).  The layouts are variable (lists prefixed by 16-bit counts,
-// keys and signatures whose size follows from an algorithm field), so the field map is "a 16-bit
-// and an 8-bit field at every offset" — a superset of the real count / size / offset fields.
+// Boot Guard 1.0 and CBnT manifests: ReadFrom of every one of the 33 generated structures on hostile
+// bytes (pkg/intel/metadata/{bg,cbnt}/**/*_manifestcodegen.go).
+//
+//   - bg.km.read, bg.bpm.read, cbnt.km.read, cbnt.bpm.read: the four manifests on the binaries of the
+//     package tests (+ TotalSize / PrettyString of what was read);
+//   - mf.<pkg>.<T>: ReadFrom of each structure type on its own: the seeds are the sub-structures of
+//     the parsed test binaries, written back with fiano's WriteTo (collected by reflection), and the
+//     zero value of the type.
+//
+// The layouts are variable (lists prefixed by 8/16-bit counts, keys and signatures whose size follows
+// from an algorithm field), so the field map is "a 16-bit and an 8-bit field at every offset" — a
+// superset of the real count / size / offset fields.
+//
+// Model (lean/FianoModel/Total/Manifest.lean): the *generic* GoM reader run on the layout that
+// Gen/Manifest.lean prescribes for the type; compared: ok:n=<bytes counted> | err, and the model's
+// allocation meter <= TotalAlloc.  manifest.memsize compares the model's unsafe.Sizeof with Go's.
 
 import (
 	"bytes"
+	"fmt"
 	"io"
 	"math/rand"
+	"reflect"
+	"sort"
+	"strings"
 
+	"github.com/linuxboot/fiano/pkg/intel/metadata/bg"
 	"github.com/linuxboot/fiano/pkg/intel/metadata/bg/bgbootpolicy"
 	"github.com/linuxboot/fiano/pkg/intel/metadata/bg/bgkey"
+	"github.com/linuxboot/fiano/pkg/intel/metadata/cbnt"
 	"github.com/linuxboot/fiano/pkg/intel/metadata/cbnt/cbntbootpolicy"
 	"github.com/linuxboot/fiano/pkg/intel/metadata/cbnt/cbntkey"
 
@@ -22,63 +40,407 @@ type readerFrom interface {
 	ReadFrom(r io.Reader) (int64, error)
 }
 
-func manifestEP(name string, files []string, mk func() readerFrom, after func(readerFrom)) {
-	Register(&EP{
-		Name: name,
-		Seeds: func(r *rand.Rand) []Seed {
-			var ss []Seed
-			for _, p := range files {
+type mfStructure interface {
+	io.ReaderFrom
+	io.WriterTo
+}
+
+// the 33 structures with a generated codec (Gen.Manifest.structNames; Manifest/Tie.lean `structures`)
+var mfRegistry = map[string]func() mfStructure{
+	"bg.HashStructure":                  func() mfStructure { return &bg.HashStructure{} },
+	"bg.HashStructureFill":              func() mfStructure { return &bg.HashStructureFill{} },
+	"bg.Key":                            func() mfStructure { return &bg.Key{} },
+	"bg.KeySignature":                   func() mfStructure { return &bg.KeySignature{} },
+	"bg.Signature":                      func() mfStructure { return &bg.Signature{} },
+	"bg.StructInfo":                     func() mfStructure { return &bg.StructInfo{} },
+	"bgbootpolicy.BPMH":                 func() mfStructure { return &bgbootpolicy.BPMH{} },
+	"bgbootpolicy.IBBSegment":           func() mfStructure { return &bgbootpolicy.IBBSegment{} },
+	"bgbootpolicy.Manifest":             func() mfStructure { return &bgbootpolicy.Manifest{} },
+	"bgbootpolicy.PM":                   func() mfStructure { return &bgbootpolicy.PM{} },
+	"bgbootpolicy.SE":                   func() mfStructure { return &bgbootpolicy.SE{} },
+	"bgbootpolicy.Signature":            func() mfStructure { return &bgbootpolicy.Signature{} },
+	"bgkey.Manifest":                    func() mfStructure { return &bgkey.Manifest{} },
+	"cbnt.ChipsetACModuleInformation":   func() mfStructure { return &cbnt.ChipsetACModuleInformation{} },
+	"cbnt.ChipsetACModuleInformationV5": func() mfStructure { return &cbnt.ChipsetACModuleInformationV5{} },
+	"cbnt.HashList":                     func() mfStructure { return &cbnt.HashList{} },
+	"cbnt.HashStructure":                func() mfStructure { return &cbnt.HashStructure{} },
+	"cbnt.Key":                          func() mfStructure { return &cbnt.Key{} },
+	"cbnt.KeySignature":                 func() mfStructure { return &cbnt.KeySignature{} },
+	"cbnt.Signature":                    func() mfStructure { return &cbnt.Signature{} },
+	"cbnt.StructInfo":                   func() mfStructure { return &cbnt.StructInfo{} },
+	"cbnt.TPMInfoList":                  func() mfStructure { return &cbnt.TPMInfoList{} },
+	"cbntbootpolicy.BPMH":               func() mfStructure { return &cbntbootpolicy.BPMH{} },
+	"cbntbootpolicy.IBBSegment":         func() mfStructure { return &cbntbootpolicy.IBBSegment{} },
+	"cbntbootpolicy.Manifest":           func() mfStructure { return &cbntbootpolicy.Manifest{} },
+	"cbntbootpolicy.PCD":                func() mfStructure { return &cbntbootpolicy.PCD{} },
+	"cbntbootpolicy.PM":                 func() mfStructure { return &cbntbootpolicy.PM{} },
+	"cbntbootpolicy.Reserved":           func() mfStructure { return &cbntbootpolicy.Reserved{} },
+	"cbntbootpolicy.SE":                 func() mfStructure { return &cbntbootpolicy.SE{} },
+	"cbntbootpolicy.Signature":          func() mfStructure { return &cbntbootpolicy.Signature{} },
+	"cbntbootpolicy.TXT":                func() mfStructure { return &cbntbootpolicy.TXT{} },
+	"cbntkey.Hash":                      func() mfStructure { return &cbntkey.Hash{} },
+	"cbntkey.Manifest":                  func() mfStructure { return &cbntkey.Manifest{} },
+}
+
+var mfTestdata = map[string][]string{
+	"bgkey.Manifest": {"pkg/intel/metadata/bg/bgkey/testdata/km.bin"},
+	"bgbootpolicy.Manifest": {"pkg/intel/metadata/bg/bgbootpolicy/testdata/bpm.bin",
+		"pkg/intel/metadata/bg/bgbootpolicy/testdata/bpm2.bin", "pkg/intel/metadata/bg/bgbootpolicy/testdata/bpm3.bin"},
+	"cbntkey.Manifest":        {"pkg/intel/metadata/cbnt/cbntkey/testdata/km.bin"},
+	"cbntbootpolicy.Manifest": {"pkg/intel/metadata/cbnt/cbntbootpolicy/testdata/bpm.bin"},
+}
+
+func mfQualName(t reflect.Type) string {
+	p := t.PkgPath()
+	return p[strings.LastIndex(p, "/")+1:] + "." + t.Name()
+}
+
+// mfCollect: the encodings (fiano's own WriteTo) of every registered structure found inside v.
+func mfCollect(v reflect.Value, out map[string][][]byte) {
+	switch v.Kind() {
+	case reflect.Ptr:
+		if !v.IsNil() {
+			mfCollect(v.Elem(), out)
+		}
+	case reflect.Slice:
+		if v.Type().Elem().Kind() == reflect.Struct {
+			for i := 0; i < v.Len(); i++ {
+				mfCollect(v.Index(i), out)
+			}
+		}
+	case reflect.Struct:
+		q := mfQualName(v.Type())
+		if _, ok := mfRegistry[q]; ok && v.CanAddr() {
+			if w, ok := v.Addr().Interface().(io.WriterTo); ok && len(out[q]) < 3 {
+				var buf bytes.Buffer
+				if _, err := w.WriteTo(&buf); err == nil {
+					dup := false
+					for _, o := range out[q] {
+						dup = dup || bytes.Equal(o, buf.Bytes())
+					}
+					if !dup {
+						out[q] = append(out[q], append([]byte(nil), buf.Bytes()...))
+					}
+				}
+			}
+		}
+		for i := 0; i < v.NumField(); i++ {
+			if v.Type().Field(i).PkgPath == "" { // exported
+				mfCollect(v.Field(i), out)
+			}
+		}
+	}
+}
+
+var mfSubSeeds map[string][][]byte
+
+func mfSeedsOf(q string) [][]byte {
+	if mfSubSeeds == nil {
+		mfSubSeeds = map[string][][]byte{}
+		var tops []string
+		for t := range mfTestdata {
+			tops = append(tops, t)
+		}
+		sort.Strings(tops)
+		for _, t := range tops {
+			for _, p := range mfTestdata[t] {
 				b := readRepoFile(p)
 				if len(b) == 0 {
 					continue
 				}
-				fs := append(everyOffset(len(b), 2, "u16"), everyOffset(len(b), 1, "u8")...)
-				fs = append(fs, core.Field{Name: "u32@12", Off: 12, W: 4})
-				ss = append(ss, Seed{Name: p[len("pkg/intel/metadata/"):], In: b, Fields: fs})
+				m := mfRegistry[t]()
+				if _, err := m.ReadFrom(bytes.NewReader(b)); err == nil {
+					mfCollect(reflect.ValueOf(m), mfSubSeeds)
+				}
+			}
+		}
+	}
+	return mfSubSeeds[q]
+}
+
+// mfPrefix is a real length field of an encoding: the size prefix of a byte array or the count of a list.
+type mfPrefix struct {
+	off, w int
+	val    uint64
+	count  bool
+}
+
+func mfTagWidth(tag reflect.StructTag) int {
+	switch tag.Get("countType") {
+	case "uint8":
+		return 1
+	case "uint32":
+		return 4
+	case "uint64":
+		return 8
+	}
+	return 2
+}
+
+// mfWalk follows the rules of common/manifestcodegen (declaration order, countType / countValue tags,
+// element lists of a container have no count) over a value and records where the length fields of
+// its encoding are.  It returns false when it meets something it does not know.
+func mfWalk(v reflect.Value, off *int, out *[]mfPrefix) bool {
+	t := v.Type()
+	container := t.Name() == "Manifest" && strings.HasSuffix(t.PkgPath(), "bootpolicy")
+	for i := 0; i < v.NumField(); i++ {
+		f, sf := v.Field(i), t.Field(i)
+		switch f.Kind() {
+		case reflect.Uint8, reflect.Uint16, reflect.Uint32, reflect.Uint64, reflect.Bool:
+			*off += int(f.Type().Size())
+		case reflect.Array:
+			if f.Type().Elem().Kind() != reflect.Uint8 {
+				return false
+			}
+			*off += f.Len()
+		case reflect.Struct:
+			if !mfWalk(f, off, out) {
+				return false
+			}
+		case reflect.Ptr:
+			if !f.IsNil() && !mfWalk(f.Elem(), off, out) {
+				return false
+			}
+		case reflect.Slice:
+			switch f.Type().Elem().Kind() {
+			case reflect.Uint8:
+				if sf.Tag.Get("countValue") == "" {
+					w := mfTagWidth(sf.Tag)
+					*out = append(*out, mfPrefix{off: *off, w: w, val: uint64(f.Len())})
+					*off += w
+				}
+				*off += f.Len()
+			case reflect.Struct:
+				if !container {
+					w := mfTagWidth(sf.Tag)
+					*out = append(*out, mfPrefix{off: *off, w: w, val: uint64(f.Len()), count: true})
+					*off += w
+				}
+				for j := 0; j < f.Len(); j++ {
+					if !mfWalk(f.Index(j), off, out) {
+						return false
+					}
+				}
+			case reflect.Uint16:
+				w := mfTagWidth(sf.Tag)
+				*out = append(*out, mfPrefix{off: *off, w: w, val: uint64(f.Len()), count: true})
+				*off += w + 2*f.Len()
+			default:
+				return false
+			}
+		default:
+			return false
+		}
+	}
+	return true
+}
+
+// mfTargeted: for the real length fields of a valid encoding, the length-relative mutants (Rels) and
+// hand-made seeds with the absolute extremes — never sub-sampled, unlike the every-offset field map.
+func mfTargeted(q, name string, enc []byte) (rels []Rel, attacks []Seed) {
+	m := mfRegistry[q]()
+	if n, err := m.ReadFrom(bytes.NewReader(enc)); err != nil || int(n) > len(enc) {
+		return nil, nil
+	}
+	var ps []mfPrefix
+	off := 0
+	if !mfWalk(reflect.ValueOf(m).Elem(), &off, &ps) || off > len(enc) {
+		return nil, nil
+	}
+	for _, p := range ps {
+		fd := core.Field{Name: fmt.Sprintf("len@%d/%d", p.off, p.w), Off: p.off, W: p.w}
+		if p.count {
+			rels = append(rels, Rel{Field: fd, Fit: p.val, Step: 1})
+		} else {
+			rels = append(rels, Rel{Field: fd, Fit: uint64(len(enc) - p.off - p.w), Step: 1}, Rel{Field: fd, Fit: p.val, Step: 1})
+		}
+		max := uint64(1)<<(8*uint(p.w)) - 1
+		for _, v := range []uint64{0, 1, max, max - 1, max >> 1, max>>1 + 1} {
+			if v == p.val {
+				continue
+			}
+			b := append([]byte(nil), enc...)
+			putLE(b, p.off, p.w, v)
+			attacks = append(attacks, Seed{Name: fmt.Sprintf("attack-%s-%s=%d", name, fd.Name, v), In: b})
+		}
+	}
+	return rels, attacks
+}
+
+func mfFields(n int) []core.Field {
+	fs := append(everyOffset(n, 2, "u16"), everyOffset(n, 1, "u8")...)
+	return append(fs, core.Field{Name: "u32@12", Off: 12, W: 4})
+}
+
+func mfModel(q string) func([]byte, map[string]string, Res) string {
+	return func(in []byte, _ map[string]string, _ Res) string {
+		return "manifest.read " + q + " " + core.Hex(in)
+	}
+}
+
+func mfRes(n int64, err error) Res {
+	if err != nil {
+		return Res{Class: "err", Sub: errSub(err)}
+	}
+	return Res{Class: "ok", MCls: fmt.Sprintf("ok:n=%d", n)}
+}
+
+func manifestEP(name, q string, mk func() readerFrom, after func(readerFrom)) {
+	Register(&EP{
+		Name: name,
+		Seeds: func(r *rand.Rand) []Seed {
+			var ss []Seed
+			for _, p := range mfTestdata[q] {
+				b := readRepoFile(p)
+				if len(b) == 0 {
+					continue
+				}
+				nm := p[len("pkg/intel/metadata/"):]
+				rels, attacks := mfTargeted(q, nm, b)
+				ss = append(ss, Seed{Name: nm, In: b, Fields: mfFields(len(b)), Rels: rels})
+				ss = append(ss, attacks...)
 			}
 			return ss
 		},
 		Run: func(in []byte, _ map[string]string) Res {
 			m := mk()
-			_, err := m.ReadFrom(bytes.NewReader(in))
+			n, err := m.ReadFrom(bytes.NewReader(in))
 			if err == nil && after != nil {
 				after(m)
 			}
-			return Res{Class: class(err)}
+			return mfRes(n, err)
 		},
+		Model:    mfModel(q),
 		Quick:    700,
 		Thorough: 60000,
 	})
 }
 
 func init() {
-	manifestEP("bg.km.read", []string{"pkg/intel/metadata/bg/bgkey/testdata/km.bin"},
+	manifestEP("bg.km.read", "bgkey.Manifest",
 		func() readerFrom { return bgkey.NewManifest() },
 		func(m readerFrom) {
 			km := m.(*bgkey.Manifest)
 			_ = km.TotalSize()
 			_ = km.PrettyString(0, true)
 		})
-	manifestEP("bg.bpm.read", []string{"pkg/intel/metadata/bg/bgbootpolicy/testdata/bpm.bin",
-		"pkg/intel/metadata/bg/bgbootpolicy/testdata/bpm2.bin", "pkg/intel/metadata/bg/bgbootpolicy/testdata/bpm3.bin"},
+	manifestEP("bg.bpm.read", "bgbootpolicy.Manifest",
 		func() readerFrom { return bgbootpolicy.NewManifest() },
 		func(m readerFrom) {
 			bpm := m.(*bgbootpolicy.Manifest)
 			_ = bpm.TotalSize()
 			_ = bpm.PrettyString(0, true)
 		})
-	manifestEP("cbnt.km.read", []string{"pkg/intel/metadata/cbnt/cbntkey/testdata/km.bin"},
+	manifestEP("cbnt.km.read", "cbntkey.Manifest",
 		func() readerFrom { return cbntkey.NewManifest() },
 		func(m readerFrom) {
 			km := m.(*cbntkey.Manifest)
 			_ = km.TotalSize()
 			_ = km.PrettyString(0, true)
 		})
-	manifestEP("cbnt.bpm.read", []string{"pkg/intel/metadata/cbnt/cbntbootpolicy/testdata/bpm.bin"},
+	manifestEP("cbnt.bpm.read", "cbntbootpolicy.Manifest",
 		func() readerFrom { return cbntbootpolicy.NewManifest() },
 		func(m readerFrom) {
 			bpm := m.(*cbntbootpolicy.Manifest)
 			_ = bpm.TotalSize()
 			_ = bpm.PrettyString(0, true)
 		})
+
+	// every generated structure on its own
+	var qs []string
+	for q := range mfRegistry {
+		qs = append(qs, q)
+	}
+	sort.Strings(qs)
+	for _, q := range qs {
+		q := q
+		if _, top := mfTestdata[q]; top {
+			continue
+		}
+		Register(&EP{
+			Name: "mf." + q,
+			Seeds: func(r *rand.Rand) []Seed {
+				var ss []Seed
+				for i, b := range mfSeedsOf(q) {
+					nm := fmt.Sprintf("testdata-%d", i)
+					rels, attacks := mfTargeted(q, nm, b)
+					ss = append(ss, Seed{Name: nm, In: b, Fields: mfFields(len(b)), Rels: rels})
+					ss = append(ss, attacks...)
+				}
+				var buf bytes.Buffer
+				if _, err := mfRegistry[q]().WriteTo(&buf); err == nil {
+					b := append([]byte(nil), buf.Bytes()...)
+					ss = append(ss, Seed{Name: "zero-value", In: b, Fields: mfFields(len(b))})
+				}
+				// a count / size of all ones in front of little data: the allocation that a short read leaves unpaid
+				ss = append(ss, Seed{Name: "attack-all-ones", In: bytes.Repeat([]byte{0xff}, 24)})
+				return ss
+			},
+			Run: func(in []byte, _ map[string]string) Res {
+				m := mfRegistry[q]()
+				n, err := m.ReadFrom(bytes.NewReader(in))
+				return mfRes(n, err)
+			},
+			Model:    mfModel(q),
+			Quick:    110,
+			Thorough: 4000,
+		})
+	}
+
+	// the hand-written reader on top of a generated one
+	Register(&EP{
+		Name: "mf.cbnt.ParseChipsetACModuleInformation",
+		Seeds: func(r *rand.Rand) []Seed {
+			sig := []byte{0xAA, 0x3A, 0xC0, 0x7F, 0xA7, 0x46, 0xDB, 0x18, 0x2E, 0xAC, 0x69, 0x8F, 0x8D, 0x41, 0x7F, 0x5A}
+			var ss []Seed
+			for _, ver := range []byte{4, 5, 7} {
+				b := make([]byte, 56)
+				copy(b, sig)
+				b[16], b[17] = 1, ver
+				b[18] = 44
+				for i := 20; i < len(b); i++ {
+					b[i] = byte(i)
+				}
+				ss = append(ss, Seed{Name: fmt.Sprintf("v%d", ver), In: b, Fields: mfFields(len(b))})
+			}
+			return ss
+		},
+		Run: func(in []byte, _ map[string]string) Res {
+			n, _, err := cbnt.ParseChipsetACModuleInformation(bytes.NewReader(in))
+			return mfRes(n, err)
+		},
+		Model:    hexReq("manifest.chipset"),
+		Quick:    250,
+		Thorough: 6000,
+	})
+
+	// unsafe.Sizeof of every structure type: what `make([]T, count)` / `append(s.F, el)` allocate per item
+	Register(&EP{
+		Name: "manifest.memsize",
+		Seeds: func(r *rand.Rand) []Seed {
+			var ss []Seed
+			for _, q := range qs {
+				if q == "bgbootpolicy.Manifest" || q == "cbntbootpolicy.Manifest" {
+					continue // containers are never list items
+				}
+				ss = append(ss, Seed{Name: "attack-" + q, In: []byte(q)})
+			}
+			return ss
+		},
+		Run: func(in []byte, _ map[string]string) Res {
+			mk, ok := mfRegistry[string(in)]
+			if !ok {
+				return Res{Class: "err"}
+			}
+			return Res{Class: "ok", MCls: fmt.Sprintf("ok:%d", reflect.TypeOf(mk()).Elem().Size())}
+		},
+		Model: func(in []byte, _ map[string]string, res Res) string {
+			if res.Class != "ok" {
+				return ""
+			}
+			return "manifest.memsize " + string(in)
+		},
+		Quick:    60,
+		Thorough: 60,
+	})
 }
